@@ -12,6 +12,7 @@ Terms (hashable nested tuples):
   ('binop', op, a, b) ('unop', op, a) ('cast', t, ty, ck) ('discr', t, variants)
   ('phi', l, name)              local with several definitions (resolved path-sensitively by gea)
   ('resume', bb)                value a coroutine is resumed with
+  ('mut', l, name, base)        local handed out by `&mut` (see Prov.mutators): base value + mutator log
   ('unknown', why)
 References and dereferences are transparent (a term denotes the value or the place it lives in).
 """
@@ -109,7 +110,7 @@ class Prov:
                 p = s["p"]
                 self._record_def(p, (bb, i), s)
                 rv = s["rv"]
-                if rv["k"] == "ref" and rv["bk"] == "mut":
+                if rv["k"] == "ref" and rv["bk"] == "mut" and not any(e["k"] == "deref" for e in rv["p"]["proj"]):
                     self.mutborrow.setdefault(rv["p"]["l"], []).append((bb, i))
             t = b["term"]
             if t["k"] == "call":
@@ -140,7 +141,11 @@ class Prov:
             return ("param", l, body.name_of(l) or "_%d" % l)
         ds = self.defsites.get(l, [])
         if len(ds) == 1:
-            return self.def_term(ds[0])
+            t = self.def_term(ds[0])
+            if l in self.mutborrow:
+                # the local is handed out by `&mut`: its value is base + the logged mutator calls
+                return ("mut", l, body.name_of(l) or "_%d" % l, t)
+            return t
         if not ds:
             if l == 0:
                 return ("unknown", "return place read")
@@ -265,6 +270,61 @@ class Prov:
         t = self.body.blocks[bb]["term"]
         return [self.operand_term(a) for a in t["args"]]
 
+    def mutators(self, l):
+        """Calls that receive a `&mut` reference to local l (directly or through reborrows):
+        [(bb, callee, arg index)] in block order."""
+        body = self.body
+        refs = set()
+        changed = True
+        while changed:
+            changed = False
+            for b in body.blocks:
+                if b["i"] not in self.live:
+                    continue
+                for s in b["stmts"]:
+                    if s["k"] != "assign" or s["p"]["proj"]:
+                        continue
+                    d = s["p"]["l"]
+                    if d in refs:
+                        continue
+                    rv = s["rv"]
+                    src = None
+                    if rv["k"] == "ref" and rv["bk"] == "mut":
+                        pl = rv["p"]
+                        if pl["l"] == l and not any(e["k"] == "deref" for e in pl["proj"]):
+                            src = True
+                        elif pl["l"] in refs and all(e["k"] == "deref" for e in pl["proj"]):
+                            src = True
+                    elif rv["k"] == "use" and rv["op"]["k"] in ("copy", "move"):
+                        pl = rv["op"]["p"]
+                        if pl["l"] in refs and not pl["proj"]:
+                            src = True
+                    if src:
+                        refs.add(d)
+                        changed = True
+                t = b["term"]
+                if t["k"] == "call" and not t["dest"]["proj"] and t["dest"]["l"] not in refs:
+                    c = t["callee"].get("def")
+                    if c in self.transparent:
+                        a = t["args"][self.transparent[c]] if len(t["args"]) > self.transparent[c] else None
+                        if a is not None and a["k"] in ("copy", "move") and a["p"]["l"] in refs and not a["p"]["proj"]:
+                            refs.add(t["dest"]["l"])
+                            changed = True
+        out = []
+        for b in body.blocks:
+            if b["i"] not in self.live:
+                continue
+            t = b["term"]
+            if t["k"] != "call":
+                continue
+            c = t["callee"].get("def") or "<indirect>"
+            if c in self.transparent:
+                continue
+            for ai, a in enumerate(t["args"]):
+                if a["k"] in ("copy", "move") and a["p"]["l"] in refs and not a["p"]["proj"]:
+                    out.append((b["i"], c, ai))
+        return out
+
     def phi_alternatives(self, l):
         """[(site, term)] for every definition of a multi-def local (params contribute ('param',..))."""
         out = []
@@ -322,6 +382,8 @@ def walk(t):
             st.append(x[1])
         elif h in ("field", "variant", "proj"):
             st.append(x[1])
+        elif h == "mut":
+            st.append(x[3])
         elif h == "call":
             st.extend(x[3])
         elif h == "agg":
@@ -393,6 +455,8 @@ def show(t, depth=0):
         return "discr(%s)" % show(t[1], d)
     if h == "phi":
         return "Var(%s)" % t[2]
+    if h == "mut":
+        return "Mut(%s := %s)" % (t[2], show(t[3], d))
     if h == "index":
         return "%s[%s]" % (show(t[1], d), show(t[2], d))
     return "%s" % (t,)
